@@ -47,7 +47,9 @@ class C11(Prop):
             "reverse validator or no atom, compared with the per-region scans only) scanned over layouts of 0-6 regions: gaps, adjacency, empty regions, "
             "needles straddling a boundary, a match at offset 0 right after a region ending with a match, described "
             "length longer or shorter than the fetched bytes, every subset of failing fetches (sampled), ascending and "
-            "(for the recorded finding) non-ascending delivery order, the three fragmented scan modes; per case 4-9 "
+            "(for the recorded finding) non-ascending delivery order, the three fragmented scan modes; 1/6 of the cases have every rule decidable without its strings "
+            "(`true or $a`, matched-only reporting: the no-scan pass is allowed in fast mode, the match lists must "
+            "still be the union since full matches are requested); per case 4-9 "
             "probe rules: `$a at X`, `$a in (lo..hi)`, `#a`, `@a[i]`, uint8/16/32(X) at region edges, `defined "
             "filesize`, hash.checksum32 over ranges inside one region, across adjacent regions, across a gap, past "
             "the last region. Compared with Scanner::scan_mem on each fetched region (rebased, concatenated) and with "
@@ -151,7 +153,14 @@ class C11(Prop):
                 probes.append({"t": "uint", "n": rng.choice([1, 2, 4]), "x": addr_near()})
             else:
                 probes.append({"t": "cs", "x": addr_near(), "n": rng.choice([1, 2, 3, 5, 8, 20, 70, 200])})
+        noscan = rng.chance(1, 6)
+        if noscan:
+            # every rule decidable without its strings (`true or $a`), matched-only reporting: the no-scan pass may
+            # answer the verdicts, the match lists must still be the rebased union (compute_full_matches)
+            probes = [p for p in probes if p["t"] in ("filesize", "uint", "cs")]
+            mode = rng.choice(["fast", "fast", "legacy", "single_pass"])
         return {"decl": d, "raw_decl": raw_decl, "regions": regions, "mode": mode, "probes": probes, "order": order,
+                "noscan_shape": noscan,
                 "profile": rng.choice(["speed", "memory"]), "params": {}}
 
     def generate(self, ctx, rng, n):
@@ -167,8 +176,11 @@ class C11(Prop):
             decl = c.get("raw_decl") or decl_yara("a", c["decl"])
             ctx.count("string=%s" % ("text" if not c.get("raw_decl") else "hex/regex"))
             p = dict(c.get("params", {}))
-            p.update({"compute_full_matches": True, "include_not_matched": True, "mode": c["mode"]})
-            src = 'import "hash" import "console" rule r { strings: %s condition: #a >= 0 } ' % decl
+            ns_shape = bool(c.get("noscan_shape"))
+            p.update({"compute_full_matches": True, "include_not_matched": not ns_shape, "mode": c["mode"]})
+            ctx.count("shape=%s" % ("decidable-without-strings" if ns_shape else "needs-strings"))
+            src = 'import "hash" import "console" rule r { strings: %s condition: %s } ' % (
+                decl, "true or $a" if ns_shape else "#a >= 0")
             src += " ".join(probe_rule(i, pr, decl) for i, pr in enumerate(c["probes"]))
             frag.append({"rules": [{"ns": None, "src": src}], "console": True, "profile": c.get("profile", "speed"),
                          "params": p, "input": {"regions": c["regions"]}})
